@@ -295,4 +295,35 @@ example : (renderDM 4 3 toy 13 8).toOption.map (fun img => img.px 4 1) = some fa
 /-- … and is needed: a picture whose sampled pixels are all black is refused by the global method (NotFound) -/
 example : Binarizer.hybridSets (lumOfRows (List.replicate 5 (List.replicate 5 true))) 5 5 = .error .notFound := by decide +kernel
 
+/-! ## the size condition cannot be dropped for Data Matrix: a REAL symbol whose small renderings are not read
+
+    "z\x1ax" (bytes 7A 1A 78) is encoded as the codewords 123 27 121 in the 10x10 symbol.  In that symbol the 24 modules
+    of rows 2, 4, 6, 8 x columns 2..7 are all dark — exactly the pixels the global histogram method samples in the
+    bare 10x10 rendering and in the 20x20 and 30x30 renderings (pitch 2 and 3) — so the histogram has a single peak and
+    `GetBlackMatrix` answers NotFound, which `DataMatrixReader.Decode` wraps into a ReaderException.  From 40x40 pixels
+    (local method) the same symbol reads.  Found by exhaustive search over the 2^24 data-codeword triples of the 10x10
+    symbol (two solutions: this one and "`;57"); replayed on the real code by the `img2d-dm` witnesses
+    (known finding `img2d-dm-image-roundtrip:global:ERR:reader`).  Unlike QR (`C01Image.qr_render_big_or_white`), a
+    Data Matrix symbol has no quiet zone and no light function module among the sampled pixels. -/
+
+/-- the 10x10 symbol of Table 7 -/
+def sym10 : DMRef.Sym := ⟨10, 10, 8, 8, 1, 3, 5, 3, 5, 1⟩
+
+theorem witness_encoded :
+    DMHighLevel.encodeHL C02.termSyms DMHighLevel.laExact [122, 26, 120] {} = .ok [123, 27, 121] := by decide +kernel
+
+set_option maxRecDepth 100000 in
+/-- bare symbol, pitch 2, pitch 3: not read (the binariser's NotFound, wrapped) -/
+theorem dm_image_small_counterexample :
+    dmImageDecode sym10 [123, 27, 121] 0 0 = .error (.reader .notFound) ∧
+    dmImageDecode sym10 [123, 27, 121] 20 20 = .error (.reader .notFound) ∧
+    dmImageDecode sym10 [123, 27, 121] 30 30 = .error (.reader .notFound) := by
+  refine ⟨by decide +kernel, by decide +kernel, by decide +kernel⟩
+
+/-- … while at 40x40 pixels it is read: the instance of `dm_image_pure_roundtrip` -/
+theorem dm_image_witness_40 : dmImageDecode sym10 [123, 27, 121] 40 40 = .ok [122, 26, 120] :=
+  (dm_image_pure_roundtrip C02.termSyms (by decide) DMHighLevel.laExact (fun _ _ _ => ⟨DMHighLevel.noBump, rfl⟩)
+    [122, 26, 120] {} [123, 27, 121] (by decide) witness_encoded (sym10, 0) (by decide) (by decide) 40 40).1
+    (by decide) (by decide)
+
 end Gzx.Properties.C02Image
